@@ -251,6 +251,16 @@ class Emitter:
         return lines, [names[r.id] for r in roots]
 
 
+def _binder(p):
+    """a parameter is a name (scalar of type α) or a pair (name, Lean type), e.g. ('N', 'Nat → Nat → α') for an indexed
+    family whose entries are traced as variables named '(N 0 1)'"""
+    return '(%s : %s)' % (p[0], p[1]) if isinstance(p, (tuple, list)) else '(%s : α)' % p
+
+
+def _pname(p):
+    return p[0] if isinstance(p, (tuple, list)) else p
+
+
 def emit_def(name, params, outs, doc='', names=None):
     """params: list of variable names; outs: Sym or list of Sym.
     One Lean def per output (`name` for a single output, `name_<suffix>` for several, suffix from
@@ -269,15 +279,15 @@ def emit_def(name, params, outs, doc='', names=None):
         nm = name if single else '%s_%s' % (name, names[i] if names else i)
         if doc:
             src += '/-- %s -/\n' % (doc if single else doc + ' — output ' + (names[i] if names else str(i)))
-        src += 'def %s {α : Type} %s\n    %s : α :=\n' % (nm, ' '.join(binders), ' '.join('(%s : α)' % p for p in params))
+        src += 'def %s {α : Type} %s\n    %s : α :=\n' % (nm, ' '.join(binders), ' '.join(_binder(p) for p in params))
         src += '\n'.join(lines) + ('\n' if lines else '') + '  ' + exprs[0] + '\n\n'
         all_lits |= em.lits
-        calls.append('%s %s' % (nm, ' '.join(params)))
+        calls.append('%s %s' % (nm, ' '.join(_pname(p) for p in params)))
     if not single:
         binders = ['[%s α]' % c for c in ['Add', 'Sub', 'Mul', 'Div', 'Neg', 'One']]
         binders += ['[OfNat α %d]' % k for k in sorted(all_lits)] + ['[Trans α]']
         src += 'def %s_all {α : Type} %s\n    %s : List α :=\n  [%s]\n\n' % (
-            name, ' '.join(binders), ' '.join('(%s : α)' % p for p in params), ', '.join(calls))
+            name, ' '.join(binders), ' '.join(_binder(p) for p in params), ', '.join(calls))
     return src, sorted(all_lits)
 
 
